@@ -136,43 +136,11 @@ def verify_compare(rep, u, rule='INV-5'):
            '_generations_tuple(self->_verify_ro); returns without changed() only '
            'when they are equal; errors propagate' if not probs else
            {'problems': sorted(set(probs))[:3]}, construct='compare')
-    # _generations_tuple covers every element
-    f = u.func('_generations_tuple')
-    g = ccfg(f)
-    heads = [n for n in g.nodes if n.e is not None and n.e.k == 'loophead']
-    ok = len(heads) == 1
-    detail = 'loops: %d' % len(heads)
-    if ok:
-        tests = [n for n in g.nodes if n.kind == 'test' and n.e.k == 'bin'
-                 and n.e.a[0] == '<' and is_var(n.e.a[1], 'i') and is_var(n.e.a[2], 'l')]
-        lv = [v for n in g.nodes for k, v in c_assigned(n).items() if k == 'l' and v is not None]
-        okl = bool(lv) and all(v.k == 'call' and v.a[0] == 'PyTuple_GET_SIZE'
-                               and is_var(v.a[1][0], 'ro') for v in lv)
-        iv = [v for n in g.nodes for k, v in c_assigned(n).items() if k == 'i']
-        oki = any(v is not None and v.k == 'const' and v.a[0] == 0 for v in iv)
-        geta = [c for n in g.nodes for c in node_calls(n, 'PyObject_GetAttr')]
-        okg = len(geta) == 1 and show(geta[0].a[1][0]) == 'PyTuple_GET_ITEM(ro, i)' \
-            and show(geta[0].a[1][1]) == 'str_generation'
-        seti = [c for n in g.nodes for c in node_calls(n, 'PyTuple_SET_ITEM')]
-        oks = len(seti) == 1 and [show(a) for a in seti[0].a[1][:2]] == ['generations', 'i']
-        # returns inside the loop only on the error path (NULL)
-        okr = True
-        for r in returns(g):
-            v = r.e.a[0]
-            if v is not None and v.k != 'null':
-                # a non-NULL return must not be inside the loop
-                inloop = heads[0].id in g.reach(r, forward=False) and \
-                    any(t.id in g.reach(r, forward=False) for t in tests) and \
-                    not any(lab == 'F' and m is r or
-                            (lab == 'F' and r.id in g.reach(m, include_start=True,
-                                                            avoid=lambda x: x is heads[0]))
-                            for t in tests for m, lab in t.succ)
-                okr = okr and not inloop
-        ok = bool(tests) and okl and oki and okg and oks and okr
-        detail = ('for i in [0, PyTuple_GET_SIZE(ro)): generation of ro[i] stored '
-                  'at i; no early non-error return (bounds %s/%s/%s, get %s, '
-                  'store %s, no-early-return %s)' % (bool(tests), okl, oki, okg, oks, okr))
-    ccheck(rep, rule, '_generations_tuple', ok, detail, construct='all-elements')
+    probs = csem.generations_tuple(u)
+    ccheck(rep, rule, '_generations_tuple', not probs,
+           'for i in [0, PyTuple_GET_SIZE(ro)): generation of ro[i] stored at i; '
+           'no early non-error return' if not probs else
+           {'problems': sorted(set(probs))[:3]}, construct='all-elements')
 
 
 def fills(rep, u, rule='INV-4'):
